@@ -14,6 +14,7 @@ package main
 //     simulated static call, EIP158 gas table, fee floor) are extracted by name.
 
 import (
+	"crypto/sha256"
 	"fmt"
 	"go/ast"
 	"go/token"
@@ -745,6 +746,97 @@ func c20Facts(e *env) (string, error) {
 		if err := need(n.lean, n.key, n.m, n.doc); err != nil {
 			return "", err
 		}
+	}
+	// ---- precompiled contracts: prices, the two exported sets, and which set run/Call/UTXOCall consult
+	for _, n := range []struct{ lean, key string }{
+		{"ecrecoverGas", "cfg.EcrecoverGas"}, {"sha256BaseGas", "cfg.Sha256BaseGas"}, {"sha256PerWordGas", "cfg.Sha256PerWordGas"},
+		{"ripemd160BaseGas", "cfg.Ripemd160BaseGas"}, {"ripemd160PerWordGas", "cfg.Ripemd160PerWordGas"},
+		{"identityBaseGas", "cfg.IdentityBaseGas"}, {"identityPerWordGas", "cfg.IdentityPerWordGas"}, {"modExpQuadCoeffDiv", "cfg.ModExpQuadCoeffDiv"},
+		{"bn256AddGas", "cfg.Bn256AddGas"}, {"bn256ScalarMulGas", "cfg.Bn256ScalarMulGas"}, {"bn256PairingBaseGas", "cfg.Bn256PairingBaseGas"},
+		{"bn256PairingPerPointGas", "cfg.Bn256PairingPerPointGas"},
+	} {
+		if err := need(n.lean, n.key, c.consts, "config."+n.key[4:]); err != nil {
+			return "", err
+		}
+	}
+	cf, err := e.parse("vm/evm/contracts.go")
+	if err != nil {
+		return "", err
+	}
+	sets := map[string][][2]string{}
+	for _, d := range cf.Decls {
+		gd, ok := d.(*ast.GenDecl)
+		if !ok || gd.Tok != token.VAR {
+			continue
+		}
+		for _, sp := range gd.Specs {
+			vs := sp.(*ast.ValueSpec)
+			for k, n := range vs.Names {
+				if !strings.HasPrefix(n.Name, "PrecompiledContracts") || k >= len(vs.Values) {
+					continue
+				}
+				cl, ok := vs.Values[k].(*ast.CompositeLit)
+				if !ok {
+					return "", c20Refuse(e, vs, "%s is not a map literal", n.Name)
+				}
+				for _, el := range cl.Elts {
+					kv, ok := el.(*ast.KeyValueExpr)
+					if !ok {
+						return "", c20Refuse(e, el, "precompile set element")
+					}
+					ks, vsrc := c12Src(e, kv.Key), c12Src(e, kv.Value)
+					if !strings.HasPrefix(ks, "common.BytesToAddress([]byte{") || !strings.HasSuffix(ks, "})") || !strings.HasPrefix(vsrc, "&") || !strings.HasSuffix(vsrc, "{}") {
+						return "", c20Refuse(e, kv, "precompile set entry %s: %s", ks, vsrc)
+					}
+					sets[n.Name] = append(sets[n.Name], [2]string{ks[len("common.BytesToAddress([]byte{") : len(ks)-2], vsrc[1 : len(vsrc)-2]})
+				}
+			}
+		}
+	}
+	for _, name := range []string{"PrecompiledContractsHomestead", "PrecompiledContractsByzantium"} {
+		if len(sets[name]) == 0 {
+			return "", fmt.Errorf("anchor variable not found: vm/evm/contracts.go: %s", name)
+		}
+		var items []string
+		for _, kv := range sets[name] {
+			items = append(items, fmt.Sprintf("(%s, %q)", kv[0], kv[1]))
+		}
+		fmt.Fprintf(&sb, "/-- `%s`: (address, contract type) -/\ndef %s : List (Nat × String) := [%s]\n", name, strings.ToLower(name[:1])+name[1:], strings.Join(items, ", "))
+	}
+	// every function of evm.go that looks a precompile up must use the same set
+	used := map[string]bool{}
+	for _, d := range evf.Decls {
+		fd, ok := d.(*ast.FuncDecl)
+		if !ok || fd.Body == nil {
+			continue
+		}
+		ast.Inspect(fd.Body, func(n ast.Node) bool {
+			if id, ok := n.(*ast.Ident); ok && strings.HasPrefix(id.Name, "PrecompiledContracts") {
+				used[id.Name] = true
+			}
+			return true
+		})
+	}
+	if len(used) != 1 {
+		return "", c20Refuse(e, evf, "evm.go consults %d precompile sets (%v)", len(used), used)
+	}
+	for k := range used {
+		fmt.Fprintf(&sb, "/-- the only precompile set vm/evm/evm.go (run, Call, UTXOCall) consults -/\ndef precompileSetInUse : String := %q\n", k)
+	}
+	// RequiredGas / RunPrecompiledContract bodies are pinned by hash: the model transcribes them (Model.Evm.Pre)
+	for _, t := range []string{"ecrecover", "sha256hash", "ripemd160hash", "dataCopy", "bigModExp", "bn256Add", "bn256ScalarMul", "bn256Pairing"} {
+		fd, err := e.funcDecl("vm/evm/contracts.go", t, "RequiredGas")
+		if err != nil {
+			return "", err
+		}
+		fmt.Fprintf(&sb, "/-- sha256 of the whitespace-normalised body of `(*%s).RequiredGas` -/\ndef requiredGasBody_%s : String := \"%x\"\n", t, t, sha256.Sum256([]byte(c12Src(e, fd.Body))))
+	}
+	rfd2, err := e.funcDecl("vm/evm/contracts.go", "", "RunPrecompiledContract")
+	if err != nil {
+		return "", err
+	}
+	if src := c12Src(e, rfd2.Body); src != "{ gas := p.RequiredGas(input) if contract.UseGas(gas) { return p.Run(input) } return nil, ErrOutOfGas }" {
+		return "", c20Refuse(e, rfd2, "RunPrecompiledContract body changed: %s", src)
 	}
 	return sb.String(), nil
 }
